@@ -7,10 +7,13 @@ import (
 	"fmt"
 	"os"
 	"path/filepath"
+	"runtime"
 	"sort"
+	"strconv"
 	"strings"
 	"syscall"
 	"testing"
+	"time"
 
 	"pgregory.net/rapid"
 )
@@ -136,6 +139,35 @@ func (p Part[C]) finish(rec *Recorder, c C, v Verdict) {
 	}
 }
 
+// guarded runs one case under a real-time watchdog when $VERIF_HANG_SECONDS is
+// set (only for checks whose property forbids blocking).  A case normally
+// takes milliseconds; one that is still running after that many seconds is
+// stuck on something a bubble cannot see (a mutex that is never released):
+// the process reports it as <prop>/hang with the case as replay file and exits.
+// The driver believes it only if a fresh process hangs on the same case again.
+func guarded[C any](prop, part string, c C, run func() Verdict) Verdict {
+	secs, _ := strconv.Atoi(os.Getenv("VERIF_HANG_SECONDS"))
+	if secs <= 0 {
+		return run()
+	}
+	done := make(chan struct{})
+	go func() {
+		select {
+		case <-done:
+		case <-time.After(time.Duration(secs) * time.Second):
+			buf := make([]byte, 1<<16)
+			n := runtime.Stack(buf, true)
+			v := Failf(prop+"/hang", "the case had not finished after %ds of real time (normally milliseconds): something waits for a lock that is never released", secs)
+			report(prop, part, v, c)
+			fmt.Fprintf(os.Stderr, "goroutines of the stuck case (truncated):\n%s\n", buf[:n])
+			os.Exit(1)
+		}
+	}()
+	v := run()
+	close(done)
+	return v
+}
+
 func (p Part[C]) exec(t *testing.T, prop string) {
 	rec := NewRecorder(prop, p.Name, p.Rule)
 	for _, a := range p.Assumptions {
@@ -147,7 +179,7 @@ func (p Part[C]) exec(t *testing.T, prop string) {
 		var failed bool
 		p.Enum(env, func(c C) bool {
 			journal(prop, p.Name, c)
-			v := p.Run(t, c)
+			v := guarded(prop, p.Name, c, func() Verdict { return p.Run(t, c) })
 			p.finish(rec, c, v)
 			if v.Fail {
 				failed = true
@@ -165,7 +197,7 @@ func (p Part[C]) exec(t *testing.T, prop string) {
 		rapid.Check(t, func(rt *rapid.T) {
 			c := p.Gen(rt)
 			journal(prop, p.Name, c)
-			v := p.Run(t, c)
+			v := guarded(prop, p.Name, c, func() Verdict { return p.Run(t, c) })
 			p.finish(rec, c, v)
 			if v.Fail {
 				report(prop, p.Name, v, c)
@@ -180,7 +212,7 @@ func (p Part[C]) replay(t *testing.T, prop string, raw json.RawMessage) Verdict 
 	if err := json.Unmarshal(raw, &c); err != nil {
 		t.Fatalf("replay: cannot decode case for %s/%s: %v", prop, p.Name, err)
 	}
-	return p.Run(t, c)
+	return guarded(prop, p.Name, c, func() Verdict { return p.Run(t, c) })
 }
 
 // RunParts runs the parts named in $VERIF_PART (comma separated; empty = all).
